@@ -63,7 +63,9 @@ func sBundle(name string) entry {
 }
 
 func scenarios(u *universe) []scenario {
-	svc := func(name string) *structs.NodeService { return &structs.NodeService{ID: name, Service: name, Port: 8000} }
+	svc := func(name string) *structs.NodeService {
+		return &structs.NodeService{ID: name, Service: name, Port: 8000}
+	}
 	proxy := func(dest string, ups ...string) *structs.NodeService {
 		ns := &structs.NodeService{Kind: structs.ServiceKindConnectProxy, ID: dest + "-sidecar-proxy", Service: dest + "-sidecar-proxy", Port: 21000}
 		ns.Proxy.DestinationServiceName = dest
@@ -113,6 +115,30 @@ func scenarios(u *universe) []scenario {
 		{"connect-native-dropped", []entry{
 			at(20, sReg(structs.RegisterRequest{Node: "n1", Address: "127.0.0.1", Service: &structs.NodeService{ID: "web", Service: "web", Port: 80, Connect: structs.ServiceConnect{Native: true}}}, "register n1 web connect-native")),
 			at(21, sReg(structs.RegisterRequest{Node: "n1", Address: "127.0.0.1", Service: svc("web")}, "register n1 web not native"))}},
+		{"mesh-topology-gateway-index", []entry{
+			at(6, sCfg(&structs.IngressGatewayConfigEntry{Kind: structs.IngressGateway, Name: "ingress-gw",
+				Listeners: []structs.IngressListener{{Port: 8081, Protocol: "tcp", Services: []structs.IngressService{{Name: "api"}}}}}, "ingress-gateway ingress-gw tcp [api]")),
+			at(20, sReg(structs.RegisterRequest{Node: "n1", Address: "127.0.0.1", Service: svc("api")}, "register n1 api"))}},
+		{"gateway-service-case", []entry{
+			at(51, sCfg(&structs.IngressGatewayConfigEntry{Kind: structs.IngressGateway, Name: "ingress-gw",
+				Listeners: []structs.IngressListener{{Port: 8081, Protocol: "tcp", Services: []structs.IngressService{{Name: "web"}}}}}, "ingress-gateway ingress-gw tcp [web]")),
+			at(52, sReg(structs.RegisterRequest{Node: "n1", Address: "127.0.0.1", Service: svc("Web")}, "register n1 Web"))}},
+		{"mesh-topology-node-case", []entry{
+			at(8, sReg(structs.RegisterRequest{Node: "n1", Address: "127.0.0.1", Service: proxy("web", "db")}, "register n1 web-sidecar-proxy upstream db")),
+			at(10, sReg(structs.RegisterRequest{Node: "N1", Address: "127.0.0.1"}, "register N1"))}},
+		{"check-service-case", []entry{
+			at(16, sReg(structs.RegisterRequest{Node: "n1", Address: "127.0.0.1", Service: svc("web"),
+				Check: &structs.HealthCheck{Node: "n1", CheckID: "c1", Name: "chk", Status: api.HealthPassing, ServiceID: "web"}}, "register n1 web check c1")),
+			at(17, sReg(structs.RegisterRequest{Node: "n1", Address: "127.0.0.1", Service: svc("Web")}, "register n1 Web (same id up to case)"))}},
+		{"mesh-topology-stale-after-node-rename", []entry{
+			at(19, sReg(structs.RegisterRequest{Node: "n2", ID: types.NodeID(u.nodeIDs[2]), Address: "127.0.0.2", PeerName: "peer3",
+				Service: func() *structs.NodeService { p := proxy("db", "web-v1"); p.PeerName = "peer3"; return p }()}, "register n2 id=X peer=peer3 db-sidecar-proxy upstream web-v1")),
+			at(44, sReg(structs.RegisterRequest{Node: "n1", ID: types.NodeID(u.nodeIDs[2]), Address: "127.0.0.2", PeerName: "peer3"}, "register n1 id=X peer=peer3 (renames n2)"))}},
+		{"mesh-topology-refs-ignore-peer", []entry{
+			at(21, sReg(structs.RegisterRequest{Node: "n1", Address: "127.0.0.1", Service: proxy("web", "db")}, "register n1 web-sidecar-proxy upstream db")),
+			at(23, sReg(structs.RegisterRequest{Node: "n1", Address: "127.0.0.1", PeerName: "peer1",
+				Service: func() *structs.NodeService { p := proxy("web", "db"); p.PeerName = "peer1"; return p }()}, "register n1 peer=peer1 web-sidecar-proxy upstream db")),
+			at(24, sReg(structs.RegisterRequest{Node: "n1", Address: "127.0.0.1", Service: proxy("web")}, "register n1 web-sidecar-proxy without upstreams"))}},
 		{"node-name-case", []entry{
 			at(2, sReg(structs.RegisterRequest{Node: "n1", Address: "127.0.0.1", Service: svc("web")}, "register n1 web")),
 			at(4, sReg(structs.RegisterRequest{Node: "N1", Address: "127.0.0.1"}, "register N1"))}},
